@@ -41,6 +41,7 @@ type Contract struct {
 	TemplRecv    string   // receiver type name
 	TemplPattern string   // function name glob
 	Except       []string
+	Lemmas       []string // ghost lemma calls instantiated before the postconditions are checked
 	LoopInv      []Clause // default invariants for every for-loop without own contract
 	LoopDec      []string // default decreases for every for-loop without own contract
 	FromTemplate bool
@@ -66,7 +67,7 @@ var clauseKeywords = map[string]bool{
 	"serves": true, "requires": true, "ensures": true, "modifies": true, "decreases": true,
 	"loop": true, "flag": true, "pure": true, "trusted": true, "inline": true, "opaque": true,
 	"nopanic": true, "maypanic": true, "unroll": true, "abstract": true, "allocates": true, "replaytext": true, "wrap": true, "overflow": true, "norac": true, "stages": true,
-	"except": true, "loopinvariant": true, "loopdecreases": true, "notemplate": true,
+	"lemma": true, "except": true, "loopinvariant": true, "loopdecreases": true, "notemplate": true,
 }
 
 // parseContracts reads all /*@ ... @*/ blocks of a contracts file.
@@ -148,6 +149,8 @@ func parseBlock(body string) (*Contract, error) {
 			kw, rest = cl[:i], strings.TrimSpace(cl[i+1:])
 		}
 		switch kw {
+		case "lemma":
+			c.Lemmas = append(c.Lemmas, rest)
 		case "except":
 			for _, e := range strings.Split(rest, ",") {
 				if e = strings.TrimSpace(e); e != "" {
